@@ -63,6 +63,9 @@ open_('C06', 'C06/clock-dependence/clock-inside-project-start-day',
 open_('C07', 'C07/leaf-start-after-end/user-fixed-start-after-encoded-end',
       'a user-fixed start with a time of day later than the capacity-encoded end on the same day gives start > end (fixed start 23:00, 4 of 8 units that day -> end 12:00) (F-S6)',
       S([T(1, estimate=4, start=dt(2026, 1, 5, 23))]))
+open_('C07', 'C07/leaf-start-after-end/user-fixed-end-without-start',
+      'forward: a completed leaf for which only the end date was recorded (no start) gets a freshly scheduled start (>= today), later than its fixed end (F-S8)',
+      S([T(1, estimate=8, end=dt(2025, 11, 20))]))
 open_('C14', 'C14/ZeroDivisionError/fwd/calendar-divisor-zero',
       'a resource calendar built with cal / cal whose divisor calendar is 0 on some day makes ForwardScheduler.calc raise ZeroDivisionError (F-K5)',
       S([T(1, estimate=48, resource='A')], resources={'A': DIVCAL}, **{'class': 'any'}))
